@@ -282,7 +282,7 @@ def rule_r4(repo, run, table):
 
 def rule_r5(repo, run):
     from checks import c10
-    R = run.rule("C01.R5", "const char* input is trimmed and NUL terminated on the Fortran side (see C10.R5)")
+    R = run.rule("C01.R5", "const char* input is trimmed and NUL terminated on the Fortran side; the C-side trim used with F_CFI / char** agrees with len_trim (see C10.R5, C10.R1)")
     sub = type(run)(run.prop, run.tier, write=False, known={"findings": [], "fixed": []})
     c10.rule_r5(repo, sub)
     for v in sub.violations:
@@ -292,6 +292,17 @@ def rule_r5(repo, run):
     run.rules[R]["discharged"] += r["discharged"]
     run.nontrivial.update((R, c) for (rr, c) in sub.nontrivial)
     run.samples.extend([dict(s, rule=R) for s in sub.samples[:2]])
+    # where C computes the trimmed length itself (F_CFI, char**), the scan must agree with Fortran's len_trim:
+    # otherwise the two modes deliver different text for the same call
+    sub2 = type(run)(run.prop, run.tier, write=False, known={"findings": [], "fixed": []})
+    c10.rule_r1(repo, sub2, tables.build_helper_table(repo))
+    for v in sub2.violations:
+        if v["construct"].endswith(":blank-scan"):
+            run.fail(R, v["construct"], v["message"], v["loc"])
+    kept = [c for (rr, c) in sub2.nontrivial if c.endswith(":blank-scan") and c not in set(v["construct"] for v in sub2.violations)]
+    run.rules[R]["obligations"] += len(kept)
+    run.rules[R]["discharged"] += len(kept)
+    run.nontrivial.update((R, c) for c in kept)
 
 
 RESULT_NAMES = ("f_result_blk", "c_result_blk", "fmt_result")
@@ -339,6 +350,36 @@ def rule_r6(repo, run):
               "extra dummy names of the result come from the result entry, after the parameters", wf.loc(f))
 
 
+def rule_r7(repo, run):
+    R = run.rule("C01.R7", "implied-argument functions size/len/len_trim/type(x) are evaluated on the argument "
+                           "they name; default intents as documented (see C02.R9)")
+    n = 0
+    for mname in ("wrapf", "wrapp"):
+        m = repo.module(mname)
+        f = m.func("ToImplied.visit_Identifier")
+        nodep = f.args.args[1].arg
+        cur = next((st for st in f.body if isinstance(st, ast.If)), None)
+        while isinstance(cur, ast.If):
+            fn = None
+            t = cur.test
+            if isinstance(t, ast.Compare) and isinstance(t.ops[0], ast.Eq):
+                fn = pyflow.const_str(t.comparators[0])
+            if fn in ("size", "len", "len_trim", "type"):
+                rets = pyflow.branch_return_deps(cur.body, [nodep + ".args"])
+                for r, deps in rets:
+                    n += 1
+                    run.check(R, "%s.ToImplied.visit_Identifier:%s(x)" % (mname, fn), (nodep + ".args") in deps,
+                              "the value returned for %s(x) (`%s`) does not depend on x (%s.args): every use of "
+                              "+implied(%s(x)) evaluates something else than the named argument"
+                              % (fn, m.seg(r.value)[:60], nodep, fn), m.loc(r),
+                              sample=dict(module=mname, function=fn, returns=m.seg(r.value)[:80]))
+            cur = cur.orelse[0] if len(cur.orelse) == 1 and isinstance(cur.orelse[0], ast.If) else None
+    run.floor(R, "implied-function return sites", n, 6)
+    from checks import c02
+    from sa.report import import_rules
+    import_rules(run, R, c02, repo, {"C02.R9"})
+
+
 def run(repo, run, tier):
     tables.check_model_assumptions(repo)
     table = tables.StatementTable(repo, "statements", "fc_statements")
@@ -348,3 +389,4 @@ def run(repo, run, tier):
     rule_r4(repo, run, table)
     rule_r5(repo, run)
     rule_r6(repo, run)
+    rule_r7(repo, run)
